@@ -6,13 +6,17 @@
      y divides x), divmod / // / % (Python's floor division and modulo for both signs of the divisor, which coincide with
      Coq's Z.div / Z.modulo), bit decomposition (the Python bits (v >> i) & 1), selection.
    [C05_meaning] says what "returns" means for an actual run of the interpreter.
+   Inside the documented domain they do not raise (C05_*_in_domain, Proofs/NoRaise*.v: a total-correctness calculus,
+   [C05_in_domain_meaning]): comparisons whose difference fits the bitlength, == on operands that are equal or differ by a
+   non-multiple of p, products, k-bit decompositions of values in [0, 2^k) -- in unguarded code with error checking on, for
+   operands that mention allocated variables only.
    NOT proved in Coq: the dispatch over operand kinds (int / bool / reflected operands), shifts, bitwise operators on whole
-   numbers, powers, abs, and "does not raise inside the documented domain"; they are decided by the differential check of
-   the real code against a plain-integer reference on an operator x operand-kind matrix and random programs. *)
+   numbers, powers, abs, division inside the domain; they are decided by the differential check of the real code against a
+   plain-integer reference on an operator x operand-kind matrix and random programs. *)
 From Coq Require Import ZArith List Bool Lia Znumtheory.
 From PySnark.Base Require Import FieldZ Bits.
 From PySnark.Model Require Import Lc Sym Good Gadgets Api Prog.
-From PySnark.Proofs Require Import Meta Wp WpBase FieldOk GadgetsOK Values Complete.
+From PySnark.Proofs Require Import Meta Wp WpBase FieldOk GadgetsOK Values Complete NoRaise NoRaiseGadgets.
 Import ListNotations.
 Open Scope Z_scope.
 
@@ -56,6 +60,40 @@ Theorem C05_select : forall cnd t f, returns (ite_lc cnd t f) s sg (fun r sg' =>
 Proof. exact (select_value ins ig s sg I). Qed.
 End C05.
 
+(* ---- inside the documented domain the operations do not raise (and return the Python value) ---- *)
+Section C05_domain.
+Variable p : Z.
+Hypothesis Hp : prime p.
+Variables (ins : list Z) (ig : bool) (c : cfg) (s : @Gadgets.gst p) (sg : store).
+Hypothesis Hu : NoRaiseGadgets.U ins ig s sg.         (* invariant + no active guard: error checking is on *)
+Local Notation v x := (Sym.veval p ins ig sg (sval x)).
+Local Notation rv r sg' := (Sym.veval p ins ig sg' (sval r)).
+Local Notation total := (NoRaise.nr ins ig).
+Local Notation sc := (NoRaiseGadgets.sc s).
+Local Notation b2z b := (if b then 1 else 0).
+Local Notation n := (Z.of_nat (nbits c)).
+
+Theorem C05_in_domain_meaning : forall A (m : Gadgets.G A) Q, total m s sg Q ->
+  forall t, st t = sg -> raised t = None -> forall r s' cs, run m s = (r, s', cs) ->
+  raised (fold_left (Sym.step p ins ig) cs t) = None /\ exists a, r = inl a /\ Q a s' (st (fold_left (Sym.step p ins ig) cs t)).
+Proof. intros A m Q. exact (nr_sound ins ig false A m s sg Q). Qed.
+Theorem C05_lt_in_domain : forall x y, sc x -> sc y -> Z.abs (v y - v x - 1) < 2 ^ n -> total (lt c x y) s sg (fun r _ sg' => rv r sg' = b2z (v x <? v y)).
+Proof. exact (lt_total ins ig c s sg Hu). Qed.
+Theorem C05_le_in_domain : forall x y, sc x -> sc y -> Z.abs (v y - v x) < 2 ^ n -> total (le c x y) s sg (fun r _ sg' => rv r sg' = b2z (v x <=? v y)).
+Proof. exact (le_total ins ig c s sg Hu). Qed.
+Theorem C05_gt_in_domain : forall x y, sc x -> sc y -> Z.abs (v x - v y - 1) < 2 ^ n -> total (gt c x y) s sg (fun r _ sg' => rv r sg' = b2z (v y <? v x)).
+Proof. exact (gt_total ins ig c s sg Hu). Qed.
+Theorem C05_ge_in_domain : forall x y, sc x -> sc y -> Z.abs (v x - v y) < 2 ^ n -> total (ge c x y) s sg (fun r _ sg' => rv r sg' = b2z (v y <=? v x)).
+Proof. exact (ge_total ins ig c s sg Hu). Qed.
+Theorem C05_eq_in_domain : forall x y, sc x -> sc y -> (v x = v y \/ (v x - v y) mod p <> 0) -> total (eq x y) s sg (fun r _ sg' => rv r sg' = b2z (v x =? v y)).
+Proof. exact (eq_total ins ig (field_ok_prime p Hp) s sg Hu). Qed.
+Theorem C05_mul_in_domain : forall x y, sc x -> sc y -> total (mul x y) s sg (fun r _ sg' => rv r sg' = v x * v y).
+Proof. exact (mul_total ins ig s sg Hu). Qed.
+Theorem C05_to_bits_in_domain : forall x k, sc x -> 0 <= v x < 2 ^ Z.of_nat k ->
+  total (to_bits x k) s sg (fun bs _ sg' => map (fun b => rv b sg') bs = map (fun j => Bits.pybit (v x) j) (seq 0 k)).
+Proof. exact (to_bits_total ins ig s sg Hu). Qed.
+End C05_domain.
+
 (* non-vacuity: the hypotheses hold in the initial state of every run with error checking on, and the model computes
    Python's floor division / modulo for negative operands *)
 Example C05_initial_state : forall p ins, WpBase.Inv (p:=p) ins false (init_gst (p:=p)) {| pubs := []; privs := [] |} /\ Sym.beval p ins false {| pubs := []; privs := [] |} (ignore (init_gst (p:=p))) = false.
@@ -66,6 +104,8 @@ Example C05_example :
   raised t = None /\ map (fun o => snd (fst o)) (outs t) = [-7; 2; 2; -4; 1; 1; -14; 0; 0].
 Proof. vm_compute. split; reflexivity. Qed.
 
+Print Assumptions C05_lt_in_domain.
+Print Assumptions C05_eq_in_domain.
 Print Assumptions C05_lt.
 Print Assumptions C05_eq.
 Print Assumptions C05_divmod.
